@@ -129,6 +129,15 @@ def check_resolve(case: typing.Any, ctx: Ctx) -> Info:
                 res, _ = guarded(pydsdl.read_namespace, roots[ri], roots, what="read_namespace")
                 for t in res:
                     verify_resolution(ws, d, _index_of(ws, t), t, alone, where + " read_namespace(%s)" % wsp.root_dir(ws, ri), set())
+            # a directory named several times under different spellings (relative, with .., through links, as the root *and* as a
+            # lookup) is still one directory: every reference into it has exactly one candidate
+            os.makedirs(os.path.join(d, "links"), exist_ok=True)
+            sp = case.get("spell", 0)
+            lookups = [nu.spell_directory(d, wsp.root_dir(ws, i), sp + i + k * 3, os.path.join(d, "links")) for k in range(2) for i in range(len(roots))]
+            with nu.cwd(d):
+                res, _ = guarded(pydsdl.read_namespace, roots[ri], lookups, what="read_namespace:respelled-lookups")
+            for t in res:
+                verify_resolution(ws, d, _index_of(ws, t), t, alone, where + " read_namespace(%s, lookups %r)" % (wsp.root_dir(ws, ri), lookups), set())
         targets = []
         for t_ in case["targets"]:
             if t_ % n not in targets:
@@ -197,6 +206,16 @@ def inject_fault(ws: typing.Any, fault: typing.Any) -> typing.Tuple[typing.Any, 
         taken = {tuple(x["version"]) for x in defs if wsp.full_name(ws, x) == wsp.full_name(ws, t)}
         v = next(v for v in ((t["version"][0], t["version"][1] + 1), (t["version"][0] + 1, 0), (3, 3), (4, 4), (5, 5), (6, 6), (7, 7), (8, 8), (9, 9)) if v not in taken and v[0] <= 255 and v[1] <= 255)
         add_line(c, "@assert %s.%d.%d.ID == 0" % (wsp.full_name(ws, t), v[0], v[1]))
+        return ws, {"carriers": {c}, "kind": kind}
+    if kind == "missing-version-beyond-255":
+        # version numbers in a reference are plain numbers: one beyond 255 names nothing - in particular not the version it would
+        # alias if major and minor were packed into bytes (1.256 is not 2.0), however it is spelled
+        j = fault["other"] % n
+        t = defs[j]
+        M, m = t["version"]
+        spelled = ["%d.%d" % (M - 1, m + 256) if M >= 1 else "%d.%d" % (M, m + 256), "%d.%d" % (M + 256, m), "%d.%d" % (M, m + 65536), "%d.%s" % (M, "2_5_6" if m == 0 else str(m + 256)),
+                   "%d.%d" % (M, 10**20 + m)][fault["carrier"] % 5]
+        add_line(c, "@assert %s.%s.ID == 0" % (wsp.full_name(ws, t), spelled))
         return ws, {"carriers": {c}, "kind": kind}
     if kind == "self":
         add_line(c, "@assert %s.ID >= 0" % ref_name(c, c))
@@ -480,10 +499,10 @@ def parts(ctx: Ctx) -> typing.List[Part]:
         # namespaces whose components repeat (or extend) the short names: ns.A.A, ns.A.Ab, ns.Ab.A.A ...
         wsp.definitions(max_defs=7, roots=1, shorts=["A", "Ab"], subs=["A", "Ab"]),
     )
-    resolve_cases = st.fixed_dictionaries({"ws": ws, "targets": st.lists(st.integers(0, 30), min_size=1, max_size=4)})
+    resolve_cases = st.fixed_dictionaries({"ws": ws, "targets": st.lists(st.integers(0, 30), min_size=1, max_size=4), "spell": st.integers(0, 9)})
     fault = st.fixed_dictionaries(
         {
-            "kind": st.sampled_from(["missing-name", "missing-version", "missing-relative-namesake", "missing-qualified-namesake", "self", "wrong-case", "cycle", "cycle", "duplicate-in-second-root", "self-with-twin", "cycle-with-twin"]),
+            "kind": st.sampled_from(["missing-name", "missing-version", "missing-relative-namesake", "missing-qualified-namesake", "missing-version-beyond-255", "self", "wrong-case", "cycle", "cycle", "duplicate-in-second-root", "self-with-twin", "cycle-with-twin"]),
             "carrier": st.integers(0, 30),
             "other": st.integers(0, 30),
         }
